@@ -657,6 +657,8 @@ class Runner(Exec):
 
     def field_arrays_of(self, key):
         t = self.field_type(key)
+        if t == "any":
+            return []
         if t == "optint":
             return ["val_" + key, "none_" + key]
         return ["val_" + key]
